@@ -1574,7 +1574,7 @@ func main() {
 	r := common.NewRng(o.Seed)
 	scenarios, maxMods, readers := 300, 8, 40
 	if o.Thorough() {
-		scenarios, maxMods, readers = 2500, 11, 300
+		scenarios, maxMods, readers = 800, 11, 200
 	}
 
 	// raw SHA-1: every length across two block boundaries, then random
